@@ -211,6 +211,9 @@ func runC06(c *vf.Case) {
 			}
 			classes = append(classes, maxSize, r.Intn(maxSize+1))
 			n = classes[r.Intn(len(classes))]
+			if n > maxSize {
+				n = maxSize
+			}
 			if total+n > 400000 {
 				n = r.Intn(200)
 			}
